@@ -288,3 +288,43 @@ func H16_truncated_packet_at_end() {
 	}
 	vrtReach("C16.truncated_packet_at_end")
 }
+
+// H16_oversized_packet: a client sends a packet that is larger than the connection can ever take in (more
+// than the ring size minus one read block; the property's payload limit) and then drops the connection -
+// or simply falls silent. Whatever the broker does with the packet, the connection must come to an end
+// once the peer is gone (drop) or the keep-alive period has passed (silence): closed, goroutines gone,
+// clean session discarded. The packet arrives behind a PINGREQ, in two segments cut at a symbolic point.
+func H16_oversized_packet() {
+	b := vrtBroker("mockSuccess")
+	base := vrtLiveGoroutines()
+	c, _ := b.connect(vrtConnectPkt([]byte("c"), true))
+	sizes := []int{8192, 8200, 12000, 16383}
+	total := sizes[vrtChoice("packet_size", len(sizes))]
+	payload := make([]byte, total-1-2-3)
+	pk := specEncode(&specPkt{Typ: specPUBLISH, Topic: []byte("a"), Payload: payload})
+	vrtAssert("C16.harness_packet_size", len(pk) == total)
+	first := []int{0, 1, 3, 100}[vrtChoice("bytes_with_the_ping", 4)]
+	c.peerSend(append(specEncode(&specPkt{Typ: specPINGREQ}), pk[:first]...))
+	vrtQuiesce()
+	c.peerSend(pk[first:])
+	vrtQuiesce()
+	if total <= 8192 {
+		vrtAssert("C16.harness_still_open", !c.isClosed())
+	}
+	silence := vrtBool("silence_instead_of_drop")
+	if e := vrtBound("N16ending", 2); e < 2 && silence != (e == 1) {
+		return // (C19 runs the silent ending only)
+	}
+	if silence {
+		dl, _, _, _ := c.armState()
+		vrtClockSet(dl + 1)
+		c.peerExpireDeadline()
+	} else {
+		c.peerClose()
+	}
+	vrtQuiesce()
+	vrtAssert("C16.connections_closed", c.isClosed())
+	vrtAssert("C16.no_goroutine_of_an_ended_connection_remains", vrtLiveGoroutines() == base)
+	vrtAssert("C16.clean_sessions_discarded", b.svr.sessMgr.Count() == 0)
+	vrtReach("C16.oversized_packet")
+}
